@@ -39,6 +39,8 @@ pub enum Case {
     FixArity { bytes: B, pulls: u8 },
     /// bytes on a generated tree
     Gen { tree: Tree, bytes: B },
+    /// bytes on a tree built with the crate's `Root!` / `Branch!` / `Leaf!` macros and `Node::*` constructor functions
+    Macro { bytes: B },
     /// `head ++ item x n ++ tail` on the fixed tree: messages of 2^16 +- 1 units or data elements
     Repeat { head: B, item: B, n: u32, tail: B },
     /// bytes on tree `idx` of the pool generated from `seed` (bounded-exhaustive token strings)
@@ -103,6 +105,38 @@ pub fn classtree_model() -> Tree {
         leaves: 9,
     }
 }
+
+use crate::rec::Rec;
+use scpi::{Branch, Leaf, Root};
+
+/// The same kind of tree as the others, but written the way the crate's
+/// documentation does: macros (all their forms) and constructor functions.
+pub const MACRO_TREE: Node<'static, LogDev> = Root![
+    Leaf!(b"*MC" => &Rec { id: 0 }),
+    Branch!(b"SENSe" => &Rec { id: 1 };
+        Leaf!(b"VOLTage" => &Rec { id: 2 }),
+        Branch!(default b"CURRent";
+            Leaf!(default b"DC" => &Rec { id: 3 }),
+            Leaf!(b"AC" => &Rec { id: 4 })
+        )
+    ),
+    Node::branch(b"FUNC", &[Node::default_leaf(b"ON", &Rec { id: 5 }), Node::leaf(b"OFF2", &Rec { id: 6 })]),
+    Node::default_branch(b"OPT", &[Node::leaf(b"X1", &Rec { id: 7 })])
+];
+
+pub fn macrotree_model() -> Tree {
+    Tree {
+        root: vec![
+            leaf("*MC", false, 0),
+            branch("SENSe", false, vec![leaf("", true, 1), leaf("VOLTage", false, 2), branch("CURRent", true, vec![leaf("DC", true, 3), leaf("AC", false, 4)])]),
+            branch("FUNC", false, vec![leaf("ON", true, 5), leaf("OFF2", false, 6)]),
+            branch("OPT", true, vec![leaf("X1", false, 7)]),
+        ],
+        leaves: 8,
+    }
+}
+
+pub const MACRO_TOKENS: &[&[u8]] = &[b"SENS", b"VOLT", b"CURR", b"DC", b"AC", b"FUNC", b"ON", b"OFF2", b"OPT", b"X", b"*MC", b":", b";", b"?"];
 
 /// header tokens -> Header, rest = data tokens (None: not a complete header)
 fn parse_unit(toks: &[ETok]) -> Option<(Header, Vec<ETok>)> {
@@ -357,6 +391,7 @@ fn compare(node: &Node<'static, LogDev>, bytes: &[u8], exp: &Expect, arity: Opti
 thread_local! {
     static FIX_MODEL: Tree = fixtree_model();
     static CLASS_MODEL: Tree = classtree_model();
+    static MACRO_MODEL: Tree = macrotree_model();
 }
 
 /// Tree `idx` of the pool derived from `seed`.
@@ -436,6 +471,7 @@ pub fn check(case: &Case, obs: &Obs) -> CheckResult {
             FIX_MODEL.with(|m| judge(&crate::fixtree::FIXTREE, m, &bytes, obs))
         }
         Case::FixArity { bytes, pulls } => FIX_MODEL.with(|m| judge_arity(&crate::fixtree::FIXTREE, m, bytes, Some(*pulls as usize), obs)),
+        Case::Macro { bytes } => MACRO_MODEL.with(|m| judge(&MACRO_TREE, m, bytes, obs)),
         Case::Class { bytes } => CLASS_MODEL.with(|m| judge(&crate::props::c01::CLASS_TREE, m, bytes, obs)),
         Case::Gen { tree, bytes } => {
             let real = realize(tree);
@@ -462,7 +498,7 @@ pub fn models_agree() -> Result<(), String> {
             }
         }
     }
-    for (model, node, what) in [(fixtree_model(), &crate::fixtree::FIXTREE, "FIXTREE"), (classtree_model(), &crate::props::c01::CLASS_TREE, "CLASS_TREE")] {
+    for (model, node, what) in [(fixtree_model(), &crate::fixtree::FIXTREE, "FIXTREE"), (classtree_model(), &crate::props::c01::CLASS_TREE, "CLASS_TREE"), (macrotree_model(), &MACRO_TREE, "MACRO_TREE")] {
         let mut paths = Vec::new();
         walk(&model.root, "", &mut paths);
         for (p, id) in paths {
